@@ -1,6 +1,7 @@
 package main
 
 import (
+	"go/token"
 	"fmt"
 	"go/types"
 	"sort"
@@ -359,6 +360,11 @@ func propC10(w *World, r *Report) {
 						removed = true
 					}
 				}
+				if c, ok := in.(*ssa.Call); ok {
+					if pi := removesAllOfParam(w, c.Call.StaticCallee()); pi >= 0 && pi < len(c.Call.Args) && strings.HasPrefix(ge.termOf(c.Call.Args[pi]).String(), "#0(path/filepath.Glob(") && returnsErrorOf(worker, c.Call.StaticCallee()) {
+						removed = true
+					}
+				}
 			}
 		}
 		r.Check(removed, "D5", "every file matched by the clean-up glob "+g.pattern+" is removed", g.pos, "")
@@ -666,6 +672,7 @@ func checkWriterField(w *World, r *Report, T *types.Named, wfield int, start, st
 		r.Unknown("D3", "StartRecording paths", w.Pos(start.Pos()), "not loop-free")
 	}
 	okS, nOK := true, 0
+	var swallowed []string
 	for _, p := range paths {
 		ret := p.Term(e, p.Ret.Results[0]).String()
 		ss := storesOn(p, e)
@@ -678,11 +685,23 @@ func checkWriterField(w *World, r *Report, T *types.Named, wfield int, start, st
 			if !containsStr(callsOn(p), "cptv.Writer.WriteHeader") {
 				okS = false
 			}
+			// ... and written successfully: the path has tested the error of the file creation and of the header
+			// write and found it nil (a helper that swallows the error would report success for a file without header)
+			for _, in := range p.Instrs {
+				c, ok := in.(*ssa.Call)
+				if !ok || (calleeName(c) != "cptv.Writer.WriteHeader" && calleeName(c) != "cptv.NewFileWriter") {
+					continue
+				}
+				if !errorFoundNilOn(p, c) {
+					okS = false
+					swallowed = append(swallowed, calleeName(c)+" at "+w.InstrPos(c))
+				}
+			}
 		} else if len(ss) != 0 {
 			okS = false
 		}
 	}
-	r.Check(okS && nOK >= 1, "D3", "StartRecording sets the writer exactly on its successful paths (after the header and background frame were written) and never on a failing path", w.Pos(start.Pos()), fmt.Sprintf("%d paths, %d successful", len(paths), nOK))
+	r.Check(okS && nOK >= 1, "D3", "StartRecording sets the writer exactly on its successful paths (after the header and background frame were written) and never on a failing path", w.Pos(start.Pos()), fmt.Sprintf("%d paths, %d successful; error not found nil on a successful path: %v", len(paths), nOK, swallowed))
 	// StopRecording: every path on which the writer was open ends with writer = nil and Close called
 	e2 := newTermEnv(w)
 	paths, _ = enumPathsInl(e2, stop, 256, sameReceiverHelperOf(stop))
@@ -820,16 +839,47 @@ func callsGlobAndRemoveAll(w *World, fn *ssa.Function) bool {
 	for _, b := range fn.Blocks {
 		for _, in := range b.Instrs {
 			c, ok := in.(*ssa.Call)
-			if !ok || calleeName(c) != "os.Remove" {
+			if !ok {
 				continue
 			}
-			t := e.termOf(c.Call.Args[0])
-			if t.Op == "index" && len(t.Args) == 2 && t.Args[1].Op == "rangeidx" {
+			if calleeName(c) == "os.Remove" {
+				t := e.termOf(c.Call.Args[0])
+				if t.Op == "index" && len(t.Args) == 2 && t.Args[1].Op == "rangeidx" {
+					return true
+				}
+			}
+			if pi := removesAllOfParam(w, c.Call.StaticCallee()); pi >= 0 && pi < len(c.Call.Args) && strings.HasPrefix(e.termOf(c.Call.Args[pi]).String(), "#0(path/filepath.Glob(") {
 				return true
 			}
 		}
 	}
 	return false
+}
+
+// removesAllOfParam: fn removes every element of one of its []string parameters (os.Remove(p[i]) for i ranging over
+// p, the first error returned); the index of that parameter, or -1.
+func removesAllOfParam(w *World, fn *ssa.Function) int {
+	if fn == nil || len(fn.Blocks) == 0 || !w.IsRepoFunc(fn) {
+		return -1
+	}
+	e := newTermEnv(w)
+	for _, b := range fn.Blocks {
+		for _, in := range b.Instrs {
+			c, ok := in.(*ssa.Call)
+			if !ok || calleeName(c) != "os.Remove" {
+				continue
+			}
+			t := e.termOf(c.Call.Args[0])
+			if t.Op == "index" && len(t.Args) == 2 && t.Args[1].Op == "rangeidx" && t.Args[0].String() == t.Args[1].Args[0].String() {
+				for i, p := range fn.Params {
+					if e.termOf(p).String() == t.Args[0].String() {
+						return i
+					}
+				}
+			}
+		}
+	}
+	return -1
 }
 
 // runsBeforeServing: instruction `site` executes only on the start-up path, before the connection handler can run: it
@@ -932,4 +982,42 @@ func callerNames(w *World, fn *ssa.Function) []string {
 func isStringType(t types.Type) bool {
 	bt, ok := t.Underlying().(*types.Basic)
 	return ok && bt.Info()&types.IsString != 0
+}
+
+// errorFoundNilOn: the path branches on "error result of call c == nil" and takes the nil side.
+func errorFoundNilOn(p *Path, c *ssa.Call) bool {
+	isErrOf := func(v ssa.Value) bool {
+		if v == ssa.Value(c) {
+			return true
+		}
+		if ex, ok := v.(*ssa.Extract); ok && ex.Tuple == ssa.Value(c) {
+			return true
+		}
+		return false
+	}
+	for _, g := range p.Conds {
+		if g.If == nil {
+			continue
+		}
+		bo, ok := g.If.Cond.(*ssa.BinOp)
+		if !ok {
+			continue
+		}
+		var other ssa.Value
+		switch {
+		case isErrOf(p.Origin(bo.X)) || isErrOf(bo.X):
+			other = bo.Y
+		case isErrOf(p.Origin(bo.Y)) || isErrOf(bo.Y):
+			other = bo.X
+		default:
+			continue
+		}
+		if k, isC := other.(*ssa.Const); !isC || k.Value != nil {
+			continue
+		}
+		if bo.Op == token.EQL && g.Pos || bo.Op == token.NEQ && !g.Pos {
+			return true
+		}
+	}
+	return false
 }
